@@ -312,6 +312,36 @@ func (in *c07Inst) attempt(a *c07Attempt) {
 	}
 }
 
+// c07Idle: longer than any negotiation timeout of the fixtures (virtual time).
+const c07Idle = 25 * time.Second
+
+// lateExchange: the first exchange on a's stream succeeded and nothing was closed; after c07Idle without traffic a
+// second nonce must be echoed by the same handler.
+func (in *c07Inst) lateExchange(a *c07Attempt) error {
+	time.Sleep(c07Idle)
+	var n2 [c07NonceLen]byte
+	in.nonce++
+	copy(n2[:], fmt.Sprintf("\x7flate-%010d", in.nonce))
+	fail := func(what string, err error) error {
+		a.s.Reset()
+		a.stage = "late-" + what // (not closed again below)
+		return seqmc.Violation("established-stream-unusable-after-idle-time", "%s: the first exchange succeeded; after %v without traffic the second %s on the same stream failed: %v", c07DescAttempt(a), c07Idle, what, err)
+	}
+	if _, err := a.s.Write(n2[:]); err != nil {
+		return fail("Write", err)
+	}
+	_ = a.s.SetReadDeadline(time.Now().Add(30 * time.Second))
+	buf := make([]byte, c07NonceLen)
+	if _, err := io.ReadFull(a.s, buf); err != nil {
+		return fail("Read", err)
+	}
+	_ = a.s.SetReadDeadline(time.Time{})
+	if !bytes.Equal(buf, n2[:]) {
+		return fail("echo", fmt.Errorf("read %q, wrote %q", buf, n2[:]))
+	}
+	return nil
+}
+
 func c07ProtoStat(rm network.ResourceManager, p protocol.ID) (st network.ScopeStat) {
 	_ = rm.ViewProtocol(p, func(s network.ProtocolScope) error {
 		st = s.Stat()
@@ -328,6 +358,7 @@ type c07ProbeOpt struct {
 	tag     string // the dimension the group belongs to beyond the plain state ("" = plain); part of the outcome class
 	prefix  []byte
 	hold    bool // a single open that succeeded is not closed but kept open in the background (in.held)
+	late    bool // after the first exchange succeeded the application idles for c07Idle (virtual), then makes a second exchange
 }
 
 // probe runs one group of opens in the current state and checks it. restore: start from the knowledge the
@@ -412,6 +443,11 @@ func (ck *c07Checker) probeOpt(in *c07Inst, reqs []c07Req, o c07ProbeOpt) ([]*c0
 	}
 	if verr == nil {
 		verr = ck.scopesWhileOpen(in, atts)
+	}
+	// "the bytes then exchanged flow between precisely those two endpoints" - also the bytes exchanged LATER: no
+	// deadline of the negotiation may still be armed on either end of an established stream
+	if verr == nil && o.late && len(atts) == 1 && atts[0].ok() && !atts[0].closedAny && atts[0].readOK {
+		verr = in.lateExchange(atts[0])
 	}
 	// both ends finish: the dialer closes (unless its script did), the handler sees EOF and closes
 	for _, a := range atts {
@@ -978,6 +1014,14 @@ func (ck *c07Checker) visit(in *c07Inst) error {
 	rev := []protocol.ID{c07U[2], c07U[1], c07U[0]}
 	if err := ck.probe(in, []c07Req{{dk: c07Direct, list: c07U}, {dk: c07Limited, list: rev}}, true, "concurrent"); err != nil {
 		return err
+	}
+	// idle probe: every single-protocol request on both connections, with a second exchange after c07Idle
+	for dk := range in.D {
+		for _, p := range c07U {
+			if _, err := ck.probeOpt(in, []c07Req{{dk: dk, list: []protocol.ID{p}}}, c07ProbeOpt{restore: true, why: "idle, then a second exchange", late: true, tag: "idle"}); err != nil {
+				return err
+			}
+		}
 	}
 	if c07Crafted() && !in.blank {
 		// Opt-in input dimension (see c07Crafted): the first user bytes are byte-identical to a multistream-select
